@@ -803,3 +803,119 @@ func (w *World) elemOfTypeFilteredList(ta *ssa.TypeAssert) string {
 	}
 	return fmt.Sprintf("element of a list that is filled only under checked assertions to %d types; the other ones are excluded by failed checked assertions of the same element", len(allowed))
 }
+
+// C11/K-checked-assertion-result: `x, ok := v.(*T)` (or `v.(I)` for an interface I) yields a nil x when the assertion fails. Every
+// place that dereferences x - a member access, a copy of the pointed-to record, a call of a method that reads its receiver, any
+// method call on the interface value - lies behind the ok edge of that very
+// assertion (or behind a non-nil test of x). A diagnostic on the failed edge that forgets to leave (`if !ok { report }` without the
+// `continue`) makes the compiler panic on exactly the inputs it meant to reject.
+func c11RuleK(w *World, r *Report, subjects []*ssa.Function, derefs map[*ssa.Function]map[int]string) {
+	const rule = "C11/K-checked-assertion-result"
+	n := 0
+	for _, fn := range subjects {
+		counts := map[string]int{}
+		forEachInstr(fn, func(_ *ssa.BasicBlock, ins ssa.Instruction) {
+			ta, ok := ins.(*ssa.TypeAssert)
+			if !ok || !ta.CommaOk || ta.Referrers() == nil {
+				return
+			}
+			_, isPtr := ta.AssertedType.Underlying().(*types.Pointer)
+			_, isIface := ta.AssertedType.Underlying().(*types.Interface)
+			if !isPtr && !isIface {
+				return
+			}
+			var val, okv *ssa.Extract
+			for _, ref := range *ta.Referrers() {
+				if ex, isEx := ref.(*ssa.Extract); isEx {
+					if ex.Index == 0 {
+						val = ex
+					} else {
+						okv = ex
+					}
+				}
+			}
+			if val == nil || val.Referrers() == nil {
+				return
+			}
+			// the edges on which the assertion is known to have succeeded
+			type edge struct {
+				b    *ssa.BasicBlock
+				succ int
+			}
+			var okEdges []edge
+			if okv != nil && okv.Referrers() != nil {
+				var follow func(c ssa.Value, neg bool, depth int)
+				follow = func(c ssa.Value, neg bool, depth int) {
+					if depth > 3 || c.Referrers() == nil {
+						return
+					}
+					for _, ref := range *c.Referrers() {
+						switch x := ref.(type) {
+						case *ssa.If:
+							s := 0
+							if neg {
+								s = 1
+							}
+							okEdges = append(okEdges, edge{x.Block(), s})
+						case *ssa.UnOp:
+							if x.Op == token.NOT {
+								follow(x, !neg, depth+1)
+							}
+						}
+					}
+				}
+				follow(okv, false, 0)
+			}
+			var derefAt []ssa.Instruction
+			for _, ref := range *val.Referrers() {
+				switch x := ref.(type) {
+				case *ssa.FieldAddr:
+					if x.X == ssa.Value(val) {
+						derefAt = append(derefAt, x)
+					}
+				case *ssa.UnOp:
+					if x.Op == token.MUL && x.X == ssa.Value(val) {
+						derefAt = append(derefAt, x)
+					}
+				case ssa.CallInstruction:
+					cc := x.Common()
+					if cc.IsInvoke() && cc.Value == ssa.Value(val) {
+						derefAt = append(derefAt, x) // a method call on a nil interface value
+					}
+					if f := cc.StaticCallee(); f != nil && len(cc.Args) > 0 && cc.Args[0] == ssa.Value(val) && f.Signature.Recv() != nil {
+						if derefs[f] != nil && derefs[f][0] != "" {
+							derefAt = append(derefAt, x)
+						}
+					}
+				}
+			}
+			if len(derefAt) == 0 {
+				return
+			}
+			n++
+			at := types.TypeString(ta.AssertedType, shortQual)
+			kb := fmt.Sprintf("%s uses the result of the checked assertion to %s only where it succeeded", fnKey(fn), at)
+			counts[kb]++
+			key := kb
+			if counts[kb] > 1 {
+				key = fmt.Sprintf("%s #%d", kb, counts[kb])
+			}
+			for _, d := range derefAt {
+				good := guardedByNil(d.Block(), val, true)
+				for _, e := range okEdges {
+					if edgeDominates(e.b, e.succ, d.Block()) {
+						good = true
+					}
+				}
+				if !good {
+					r.fail(rule, key, w.instrPos(d), fmt.Sprintf("the result of %s is dereferenced at %s on a path where the assertion may have failed (the value is nil there): nil pointer dereference on an input the check was meant to reject", w.instrPos(ta), w.instrPos(d)))
+					return
+				}
+			}
+			r.pass(rule, key, w.instrPos(ta), fmt.Sprintf("%d dereferences, all behind the ok edge", len(derefAt)))
+		})
+	}
+	if n == 0 {
+		r.fail(rule, "checked assertions to pointer types found", "internal/parser", "no checked assertion whose result is dereferenced found in subject code: the rule lost its sites")
+	}
+}
